@@ -801,7 +801,7 @@ def cut_loop(C, kind, s, st, fr, L=None):
             user.append((lab, lambda st_, it, idx=idx: user_invs(st_, it)[idx][1]))
     # ---- 3. Houdini over auto candidates (user invariants are assumed and checked as obligations)
     alive = list(cands)
-    alive = [(lab, f) for lab, f in alive if _holds_init(C, pre, f)]
+    alive = [(lab, f) for lab, f in alive if _holds_init(C, pre, f, lab.startswith('Q:'))]
     for _round in range(6):
         head = make_head(W, alive + user)
         with Muted(ex):
@@ -810,12 +810,13 @@ def cut_loop(C, kind, s, st, fr, L=None):
         keep = []
         for lab, f in alive:
             ok = True
+            full = lab.startswith('Q:')
             for o in outs:
                 if o.kind in ('ok', 'cnt'):
                     t = f(o.st, i + 1)
                     if t is None:
                         continue
-                    if not valid_cheap(o.st, t):
+                    if not (valid(C.assumptions(o.st, force=True), t, 3000) if full else valid_cheap(o.st, t)):
                         ok = False
                         if DEBUG:
                             print('HOUDINI drop', anchor, lab, 'at trace', o.st.trace[-4:])
@@ -894,10 +895,12 @@ def cut_loop(C, kind, s, st, fr, L=None):
     return results + exits
 
 
-def _holds_init(C, pre, f):
+def _holds_init(C, pre, f, full=False):
     t = f(pre, z3.IntVal(0))
     if t is None:
         return True
+    if full:
+        return valid(C.assumptions(pre, force=True), t, 3000)
     return valid_cheap(pre, t)
 
 
